@@ -1119,10 +1119,23 @@ def atom_pack(a):
     return v
 
 
+class UninitCell:
+    """Box<MaybeUninit<[T; N]>> of the vec![..] expansion"""
+    __slots__ = ("slot",)
+
+    def __init__(self):
+        self.slot = [None]
+
+
 def field_special(m, v, n, ty):
     if isinstance(v, Guard):
         inner = v.p.load()
         return Ptr(inner.f, n)
+    if isinstance(v, UninitCell):
+        # MaybeUninit<T> { value: ManuallyDrop<MaybeDangling<T>> }: the wrappers are transparent, the payload lives in .slot
+        if ty.startswith(("std::mem::ManuallyDrop", "std::mem::MaybeDangling", "core::mem::ManuallyDrop", "core::mem::MaybeDangling")):
+            return Ptr([v], 0)
+        return Ptr(v.slot, 0)
     if isinstance(v, Atom):
         # Atom { unsafe_data: NonZero<u64> } . 0 (NonZeroU64Inner) . 0 (u64): patterns on atoms compare this integer
         if "NonZero" in ty:
@@ -3071,3 +3084,22 @@ def vecdeque_pop_back(m, a, c):
 @model("VecDeque::len")
 def vecdeque_len(m, a, c):
     return len(V(a[0]).v)
+
+
+@model("Box::new_uninit")
+def box_new_uninit(m, a, c):
+    return Ptr([UninitCell()], 0)
+
+
+@model("std::boxed::box_assume_init_into_vec_unsafe", "box_assume_init_into_vec_unsafe", "alloc::boxed::box_assume_init_into_vec_unsafe")
+def box_into_vec(m, a, c):
+    cell = a[0].load()
+    arr = cell.slot[0]
+    if arr is None:
+        raise Panic("vec! payload read before it was written")
+    return VecM(list(arr.f))
+
+
+@model("<str as SliceExt>::to_tendril")
+def str_to_tendril(m, a, c):
+    return Tendril(list(as_str(a[0]).ch))
